@@ -100,17 +100,50 @@ def run(sid, tier="quick", props=None):
     json.dump(meta, open(os.path.join(d, "meta.json"), "w"), indent=1)
 
 
-def table():
+def table(write=False):
     rows = []
+    n = caught_now = missed_first = 0
     for sid in sorted(os.listdir(SEEDED)):
         mp = os.path.join(SEEDED, sid, "meta.json")
         if not os.path.exists(mp):
             continue
         m = json.load(open(mp))
-        checks = ", ".join(f"{k} {'caught' if v['caught'] else 'MISSED'}" + (" (no-failing-input-found)" if any('no-failing-input-found' in x for x in v['violations']) else "") for k, v in sorted(m["checks"].items()))
-        rows.append(f"| {sid} | {', '.join(m['files_touched'])} | {m.get('one_line', '')} | {checks} |")
-    print("| id | files | change | checks |\n|---|---|---|---|")
-    print("\n".join(rows))
+        n += 1
+        now = []
+        for k, v in sorted(m["checks"].items()):
+            t = "caught" if v["caught"] else "MISSED"
+            if any("no-failing-input-found" in x for x in v["violations"]):
+                t += " (obligation broke, no-failing-input-found)"
+            now.append(f"{k} {t}")
+        if m["checks"] and all(v["caught"] for v in m["checks"].values()):
+            caught_now += 1
+        first = ""
+        er = m.get("earlier_runs", [])
+        if er:
+            e0 = er[0]
+            if not e0.get("caught"):
+                first = "missed"
+                missed_first += 1
+            elif any("no-failing-input-found" in x for x in e0.get("violations", [])) or "no-failing-input" in e0.get("note", ""):
+                first = "caught without a failing input"
+                missed_first += 1
+            else:
+                first = "caught"
+        else:
+            first = "caught" if m["checks"] and all(v["caught"] for v in m["checks"].values()) else ""
+        rows.append(f"| {sid} | r{m.get('round', '?')} | {', '.join(x.replace('src/', '') for x in m['files_touched'])} | {m.get('one_line', '')} | {first} | {'; '.join(now)} |")
+    text = f"{n} confirmed seeded changes; first run of the property's quick check: {n - missed_first} caught with a failing input, {missed_first} missed or caught without one; after strengthening: {caught_now} caught.\n\n"
+    text += "| id | round | files | change | first run | current |\n|---|---|---|---|---|---|\n" + "\n".join(rows)
+    if write:
+        d = open(os.path.join(VERIF, "DESIGN.md")).read()
+        a, b = "<!-- SEEDED-BEGIN -->", "<!-- SEEDED-END -->"
+        if a in d:
+            d = d[:d.index(a) + len(a)] + "\n" + text + "\n" + d[d.index(b):]
+        else:
+            d = d.replace("SEEDED_TABLE_PLACEHOLDER", a + "\n" + text + "\n" + b)
+        open(os.path.join(VERIF, "DESIGN.md"), "w").write(d)
+    else:
+        print(text)
 
 
 if __name__ == "__main__":
@@ -120,4 +153,4 @@ if __name__ == "__main__":
     elif a[0] == "run":
         run(a[1], a[2] if len(a) > 2 else "quick", a[3:] or None)
     elif a[0] == "table":
-        table()
+        table(write="--write" in a)
